@@ -753,7 +753,7 @@ def _run_path(interp, reg, c, func, rep, via=None):
         for key in sorted(k for k in set(ghost0) | set(st.ghost) if isinstance(k, str)):
             if ('ghost:' + key) in c.modifies:
                 continue
-            if key.startswith('__'):
+            if key.startswith('__') or key.startswith('@rec-'):
                 continue        # bookkeeping of the engine (string pieces, caches, character classes): not monitor state
             v0, v1 = ghost0.get(key, _MISSING), st.ghost.get(key, _MISSING)
             if v0 is v1:
